@@ -474,6 +474,22 @@ static void struct_fields(mon::Rng& rng)
       { tainted<MS, S> t; bool ab = mon::aborts([&] { t = *ps; }); if (ab) report("load-whole-struct", "struct MS", "spurious-abort", Cfg::name); else judge_whole("load-whole-struct", t); }
       mon::ctx("load/whole-struct/copy_and_verify-pointer | off=%llu", (unsigned long long)soff);
       { tainted<MS, S> t; bool ab = mon::aborts([&] { ps.copy_and_verify([&](std::unique_ptr<tainted<MS, S>> v) { t = *v; return 0; }); }); if (ab) report("load-whole-struct-copy_and_verify", "struct MS", "spurious-abort", Cfg::name); else judge_whole("load-whole-struct-copy_and_verify", t); }
+      // the unwrappers applied directly to the sandbox-resident struct (p->UNSAFE_unverified(), (*p).unverified_safe_because):
+      // a plain application struct comes back, decoded like the loads above
+      auto judge_plain = [&](const char* op, const MS& m) {
+        mon::evals();
+        uintptr_t gotp = reinterpret_cast<uintptr_t>(m.p);
+        bool ok = gotp == R.base + poff && m.c == 'q' && m.l == 1234 + round && m.s == -7 && m.ull == 99 && m.d == 2.5 && m.b == true && m.uc == 200 && m.arr[0] == 5 && m.arr[1] == -6 &&
+                  m.fl == 1.5f && m.fn == nullptr && m.e == EV_C && m.us == 200;
+        if (ok) { n_load_ok++; return; }
+        report(op, "struct MS", "wrong-decoding",
+               mon::fmt("%s: image at offset %llu: pointer field holds the representation %llu = base+%llu, delivered as %p (base is %p)%s", Cfg::name, (unsigned long long)soff,
+                        (unsigned long long)poff, (unsigned long long)poff, (void*)gotp, (void*)R.base, gotp == R.base + poff ? "; another field differs" : ""));
+      };
+      mon::ctx("load/whole-struct/UNSAFE_unverified-on-the-cell | off=%llu", (unsigned long long)soff);
+      { MS m{}; bool ab = mon::aborts([&] { m = ps->UNSAFE_unverified(); }); if (ab) report("load-whole-struct-unverified", "struct MS", "spurious-abort", Cfg::name); else judge_plain("load-whole-struct-unverified", m); }
+      { MS m{}; bool ab = mon::aborts([&] { m = (*ps).unverified_safe_because("monitor"); }); if (ab) report("load-whole-struct-unverified_safe_because", "struct MS", "spurious-abort", Cfg::name); else judge_plain("load-whole-struct-unverified_safe_because", m); }
+      // ((*p).UNSAFE_sandboxed(sandbox) on a struct cell is not a program: the member calls an overload that does not exist)
     }
     std::memset(R.mem() + soff, 0, sizeof(GMS));
   }
